@@ -12,6 +12,10 @@ PALETTE = {
     # 0.1f32 / 2.7f32: values that are not exactly representable, so that f64::from(0.1f32) != 0.1f64
     "f64": [("1.5", "1.5f64"), ("2f32", "f64::from(2f32)"), ("3", "f64::from(3i32)"), ("1.5f64", "1.5f64"), ("b'0'", "f64::from(b'0')"),
             ("0.1f32", "f64::from(0.1f32)"), ("2.7f32", "f64::from(2.7f32)"), ("0.1", "0.1f64"), ("1e-3f32", "f64::from(1e-3f32)")],
+    # aliases of primitive types: not spelled as the literal's natural type, so a bare literal is converted - and a negative
+    # number, which is a negation and not a literal inside `expression(..)`, is used as it is
+    "I64A": [("-5", "-5i64"), ("7", "7i64"), ("-40", "-40i64"), ("7i64", "7i64"), ("-7i64", "-7i64")],
+    "F64A": [("-1.5", "-1.5f64"), ("2.5", "2.5f64"), ("-2.5f64", "-2.5f64")],
     "bool": [("true", "true")],
     "char": [("'x'", "'x'"), ("b'q'", "char::from(b'q')")],
     "&'static str": [('"hi"', '"hi"')],
@@ -30,6 +34,8 @@ UNION_PALETTE = {
 }
 PRELUDE_EXTRA = r'''
 mod wtypes {
+    pub type I64A = i64;
+    pub type F64A = f64;
     #[derive(Debug, Default, Clone, PartialEq)] pub struct W(pub String);
     impl From<u8> for W { fn from(v: u8) -> W { W(format!("u8:{}", v)) } }
     impl From<i32> for W { fn from(v: i32) -> W { W(format!("i32:{}", v)) } }
